@@ -122,7 +122,7 @@ partial def whyBy (d : Gen.D) (w : String) : Option (List Expr) → R
 partial def whyQ (d : Gen.D) : Query → R
   | .single s => whyS d s
   | .union ws s us =>
-      (match ws with | some [] => [] | some _ => ["union.WITH-inside"] | none => ["union.withs=None"]) ++ whyS d s ++ whyUn d us ++ ck (!us.isEmpty) "union.empty"
+      (match ws with | some [] => [] | some l => ["query.WITH-inside-nested-query"] ++ l.flatMap (fun w => match w with | .mk _ q => whyQ d q) | none => ["union.withs=None"]) ++ whyS d s ++ whyUn d us ++ ck (!us.isEmpty) "union.empty"
 partial def whyUn (d : Gen.D) : List (String × Select) → R
   | [] => []
   | (t, s) :: r => ck (TQ2.unionTyOK4 d t) ("union.type=" ++ t) ++ whyS d s ++ whyUn d r
@@ -133,7 +133,7 @@ partial def whyTable (d : Gen.D) : FromTable → R
   | .mk r a => whyRef d r ++ whyAlias "from" a
 partial def whyS (d : Gen.D) : Select → R
   | .mk ws dist cols fr lats js wh gb hv ob sb db cb lm =>
-      (match ws with | some [] => [] | some _ => ["select.WITH-inside-query"] | none => ["select.withs=None"]) ++
+      (match ws with | some [] => [] | some l => ["query.WITH-inside-nested-query"] ++ l.flatMap (fun w => match w with | .mk _ q => whyQ d q) | none => ["select.withs=None"]) ++
       cols.flatMap (fun c => whyE d c.1 ++ whyAlias "select" c.2) ++ ck (!cols.isEmpty) "select.no-column" ++
       (match fr with | none => [] | some [] => ["from.empty"] | some ts => ts.flatMap (whyTable d)) ++
       lats.flatMap (fun l => match l with
@@ -176,10 +176,26 @@ def whyHead (d : Gen.D) (h : InsertHead) : R :=
   whyWiths d h.withs ++ ck (TDM2.insertTyOK h.type) ("insert.type=" ++ h.type) ++ whyTblD "insert" h.table ++ whyPart d h.partition ++
     ck (TDM2.colNamesOK h.columns) "insert.column-names"
 def whySel (d : Gen.D) (q : Query) : R :=
-  if TQ2.FragQ2 d q then [] else
-    let a := whyWiths d (TDM2.withsOf q) ++ whyQ d (TDM2.stripW q)
-    let b := whyQ d q
-    if a.length ≤ b.length then a else b
+  if TQ2.FragQ2 d q then [] else whyWiths d (TDM2.withsOf q) ++ whyQ d (TDM2.stripW q)
+def whyDefCol (d : Gen.D) (c : DefCol) : R :=
+  if TD.colOK d c then [] else
+    ck (TD.nameOK c.name) "createTable.column-name" ++ ck (TD.typeOK d c.type) "createTable.column-type-not-read-back" ++
+    (if d == .MYSQL then
+      ck (TD.optFragE d c.default && TD.optFragE d c.onUpdate) "createTable.DEFAULT/ON-UPDATE-expression-outside-the-small-fragment(CURRENT_TIMESTAMP,decimal,call…)" ++
+      ck (TD.genOK d c.generated) "createTable.GENERATED-expression-or-mode"
+     else ["createTable.MySQL-column-attribute-in-a-dialect-whose-printer-drops-it"])
+def whyCreate (d : Gen.D) (c : CreateTable) : R :=
+  if TD.FragCreate d c then [] else
+    let r := ck (TD.tblOK c.table) "createTable.table-name" ++ c.columns.flatMap (whyDefCol d) ++ c.partitionedBy.flatMap (whyDefCol d) ++
+      (if d == .MYSQL then
+        ck (c.partitionedBy.isEmpty && c.rowFormatSerde.isNone && c.rowFormatDelimited.isNone && c.storedAsInputformat.isNone &&
+          !c.storedAsTextfile && c.outputformat.isNone && c.location.isNone && c.tblproperties.isEmpty) "createTable.Hive-option-in-MySQL(printer-drops-it)" ++
+        ck (c.foreignKey.all TD.fkOK) "createTable.foreign-key" ++
+        ck (TD.optIdxOK c.primaryKey && c.uniqueKey.all (TD.idxOK .unique) && c.key.all (TD.idxOK .normal) && c.fulltextKey.all (TD.idxOK .fulltext)) "createTable.key"
+       else
+        ck (c.foreignKey.isEmpty && c.primaryKey.isNone && c.uniqueKey.isEmpty && c.key.isEmpty && c.fulltextKey.isEmpty && c.engine.isNone && c.autoIncrement.isNone &&
+          c.defaultCharset.isNone && c.collate.isNone && c.rowFormat.isNone && c.statesPersistent.isNone) "createTable.MySQL-key/option-in-Hive(printer-drops-it)")
+    if r.isEmpty then ["createTable.other(segments/option-values)"] else r
 
 def whyStmt (d : Gen.D) : Stmt → R
   | .select q => whySel d q
@@ -189,7 +205,7 @@ def whyStmt (d : Gen.D) : Stmt → R
       whyWiths d ws ++ whyTblD "update" t ++ ck (!sets.isEmpty) "update.no-assignment" ++
       sets.flatMap (fun p => ck (unifyName (nameTok p.1).src == p.1) "update.column-not-read-back" ++ whyE d p.2) ++ whyO d wh ++ whyOrder d "order" ob ++ whyLimit lm
   | .delete t wh ob lm => whyTblD "delete" t ++ whyO d wh ++ whyOrder d "order" ob ++ whyLimit lm
-  | .createTable c => ck (TD.FragCreate d c) "createTable.FragCreate"
+  | .createTable c => whyCreate d c
   | .createTableAs t _ q => whyTblD "ctas" t ++ (if TR.selOK d q then [] else whySel d q)
   | .showColumns fr wh => fr.flatMap (whyTable d) ++ ck (!fr.isEmpty) "from.empty" ++ whyO d wh
   | .alter t ops => whyTblD "alter" t ++ ck (!ops.isEmpty) "alter.no-op" ++ ops.flatMap (fun o => ck (TR.alterOpOK d o) "alter.op")
